@@ -193,12 +193,48 @@ func (d *drv) setBackendDown(b bool) {
 	d.cl.bk.mu.Unlock()
 	d.env("bdown", "n1", "k1", b, nil, 0)
 }
-func (d *drv) setRemoteDown(b bool) {
-	d.cl.remote.mu.Lock()
-	d.cl.remote.down = b
-	d.cl.remote.mu.Unlock()
-	d.env("rdown", "n1", "k1", b, nil, 0)
+
+// setRemote gives every remote origin a disposition: "ok", "net", or "fail"/"retry" with the stage and status it fails at.
+type rmode struct {
+	mode, stage string
+	status      int
 }
+
+func (d *drv) setRemote(ms ...rmode) {
+	var names []string
+	detail := ""
+	d.cl.remote.mu.Lock()
+	for i, h := range d.cl.remote.hosts {
+		m := rmode{mode: "ok"}
+		if i < len(ms) {
+			m = ms[i]
+		}
+		h.mode, h.stage, h.status = m.mode, m.stage, m.status
+		names = append(names, m.mode)
+		detail += fmt.Sprintf("%s@%s:%d ", m.mode, m.stage, m.status)
+	}
+	d.cl.remote.mu.Unlock()
+	d.c.W.Ev("Env", "what", "rhosts", "node", "n1", "d", "k1", "on", true, "locs", names, "num", 0, "detail", detail)
+}
+
+func (d *drv) randomRmode(allowPatch bool) rmode {
+	stages := []string{"start", "commit"}
+	if allowPatch {
+		stages = append(stages, "patch")
+	}
+	switch d.rng.Intn(7) {
+	case 0:
+		return rmode{"fail", stages[d.rng.Intn(len(stages))], []int{500, 400, 403, 404}[d.rng.Intn(4)]}
+	case 1:
+		return rmode{"retry", stages[d.rng.Intn(len(stages))], []int{429, 502, 503, 504}[d.rng.Intn(4)]}
+	case 2:
+		return rmode{mode: "net"}
+	case 3:
+		return rmode{"fail", "start", 0}
+	}
+	return rmode{mode: "ok"}
+}
+
 func (d *drv) setWbFail(n *node, b bool) {
 	n.mgr.mu.Lock()
 	n.mgr.fail = b
@@ -368,6 +404,14 @@ func seqTrace(c *eng.Ctx, t int, rng *rand.Rand) {
 		n := d.pickNode()
 		k := d.pickBlob()
 		ns := nsOK
+		if rng.Intn(12) == 0 { // replicate-to-remote against whatever the remote origins are up to right now
+			if rng.Intn(2) == 0 {
+				d.setRemote(d.randomRmode(false), d.randomRmode(false))
+			}
+			d.simple(n, "replicate", nsOK, k)
+			d.step()
+			continue
+		}
 		var s *session
 		if len(sess) > 0 {
 			s = sess[rng.Intn(len(sess))]
@@ -447,10 +491,8 @@ func seqTrace(c *eng.Ctx, t int, rng *rand.Rand) {
 			n.mgr.mu.Unlock()
 			d.setWbFail(n, b)
 		case v < 106:
-			cl.remote.mu.Lock()
-			b := !cl.remote.down
-			cl.remote.mu.Unlock()
-			d.setRemoteDown(b)
+			// stages start / commit only: the empty blob has no patch (scenario "remote" fails patches too)
+			d.setRemote(d.randomRmode(false), d.randomRmode(false))
 		case v < 111:
 			d.backendPut(k)
 		case v < 114:
@@ -529,6 +571,8 @@ func concTrace(c *eng.Ctx, t int, rng *rand.Rand) {
 		case 4, 5:
 			d.simple(d.pickNode(), "delete", nsOK, blobsInPlay[rng.Intn(2)])
 			d.step()
+		case 6:
+			d.setRemote(d.randomRmode(false), d.randomRmode(false))
 		}
 		var wg sync.WaitGroup
 		ng := 2 + rng.Intn(2)
@@ -577,7 +621,7 @@ func concTrace(c *eng.Ctx, t int, rng *rand.Rand) {
 						gd.simple(n, "getmeta", nsOK, k)
 					case v < 38:
 						gd.simple(n, "prefetch", nsOK, k)
-					case v < 39:
+					case v < 39 || v == 39 && grng.Intn(2) == 0:
 						gd.simple(n, "replicate", nsOK, k)
 					default:
 						gd.simple(n, "locations", nsOK, k)
@@ -792,10 +836,40 @@ func scenario(c *eng.Ctx, t int, rng *rand.Rand, kind string) {
 		close(gate)
 		<-cdone
 		d.step()
+	case "remote":
+		// replicate-to-remote against remote origins whose upload legs fail in every way the cluster client
+		// distinguishes: the answer is 200 exactly when the remote cluster ends up holding the blob
+		d.upload(n1, "k1")
+		d.upload(n1, "k4")
+		ok := rmode{mode: "ok"}
+		for _, cfg := range [][]rmode{
+			{{"fail", "start", 500}, ok},
+			{{"fail", "patch", 400}, ok},
+			{{"fail", "commit", 404}, ok},
+			{{"fail", "start", 0}, ok},
+			{{"fail", "commit", 403}, ok},
+			{{"retry", "start", 503}, {"retry", "patch", 429}},
+			{{"retry", "commit", 502}, {"fail", "start", 500}},
+			{{mode: "net"}, {mode: "net"}},
+			{{mode: "net"}, {"fail", "patch", 500}},
+			{{"retry", "patch", 504}, ok},
+			{{mode: "net"}, ok},
+			{ok, ok},
+		} {
+			d.setRemote(cfg...)
+			d.simple(n1, "replicate", nsOK, "k1")
+			d.step()
+		}
+		d.setRemote(rmode{"fail", "commit", 500}, rmode{"fail", "commit", 500})
+		d.simple(n2, "replicate", nsOK, "k4")
+		d.step()
+		d.setRemote(ok, ok)
+		d.simple(n2, "replicate", nsOK, "k4")
+		d.step()
 	}
 }
 
-var scenarios = []string{"stalepatch", "negrange", "negrange_t", "om404", "ctype", "fanout", "refresh", "cleanup", "dupconflict"}
+var scenarios = []string{"stalepatch", "negrange", "negrange_t", "om404", "ctype", "fanout", "refresh", "cleanup", "dupconflict", "remote"}
 
 func run(c *eng.Ctx) error {
 	// scripted traces first, then two sequential traces for every concurrent one (interleaved, so that the chunks the
